@@ -379,6 +379,8 @@ Proof.
     + pose proof (v_pop_inv s v i H). destruct (v_pop s v i) as [s' [[|x [|y r]]|e]]; assumption.
     + now destruct dflt.
   - unfold m_keys. now destruct (fetch KNode (items s) (v_idx v)).
+  - unfold m_values. now destruct (fetch KNode (items s) (v_idx v)).
+  - unfold m_items. now destruct (fetch KNode (items s) (v_idx v)).
 Qed.
 
 (* ViewInv after every history, whatever views the edits went through *)
@@ -538,13 +540,7 @@ Proof.
   apply norm_index_ok in En. unfold zlen. lia.
 Qed.
 
-Lemma range_one j : range_list (mkrng j (j + 1) 1) = [j].
-Proof.
-  unfold range_list, range_len. cbn [r_start r_stop r_step].
-  replace (0 <? 1) with true by lia. replace (j <? j + 1) with true by lia.
-  assert (H : (j + 1 - j - 1) / 1 + 1 = 1) by (rewrite Z.div_1_r; lia). rewrite H.
-  change (Z.to_nat 1) with 1%nat. cbn [seq map]. f_equal. change (Z.of_nat 0) with 0. lia.
-Qed.
+
 
 Ltac split_ifs :=
   repeat match goal with
